@@ -450,7 +450,7 @@ def r_rule_exceptions_pass(ck: Checker) -> None:
                 return True
             if isinstance(fu, ast.Name) and fu.id in method_vars:
                 return True
-            if isinstance(fu, ast.Attribute) and fu.attr in ("visit", "generic_visit", "accept", "transform") or \
+            if isinstance(fu, ast.Attribute) and fu.attr in ("visit", "generic_visit", "accept", "transform", "_transform_children") or \
                     (isinstance(fu, ast.Attribute) and fu.attr.startswith("visit_")):
                 return True
             return False
